@@ -28,6 +28,8 @@ func init() {
 			{Name: "dropexcess-send-outside-select", File: "internal/minibus/util.go", Old: "\t\t\t\tmessage = newMessage\n\t\t\t\thasMessage = true", New: "\t\t\t\tout <- newMessage", Expect: "R09.2"},
 			{Name: "dropexcess-keeps-old", File: "internal/minibus/util.go", Old: "\t\t\t\t\t// replace the buffered message, discarding the old one\n\t\t\t\t\tmessage = newMessage\n", New: "\t\t\t\t\t_ = newMessage\n", Expect: "R09.2"},
 			{Name: "invert-backpressure", File: "pkg/resource/collection.go", Old: "\tif !config.Backpressure {\n\t\tch = mergeCollectionExcess(ch)", New: "\tif config.Backpressure {\n\t\tch = mergeCollectionExcess(ch)", Expect: "R09.3"},
+			{Name: "timeout-tested-on-another-error", File: "pkg/resource/value.go", Old: "\tif errors.Is(ctx.Err(), context.DeadlineExceeded) {\n\t\treturn nil, errors.New(\"bus.Send blocked for too long\")\n", New: "\tif errors.Is(err, context.DeadlineExceeded) {\n\t\treturn nil, errors.New(\"bus.Send blocked for too long\")\n", Expect: "R09.4"},
+			{Name: "collection-pull-buffered", File: "pkg/resource/collection.go", Old: "\tsend := make(chan *CollectionChange)\n\n\tgo func() {\n\t\tdefer close(send)\n", New: "\tsend := make(chan *CollectionChange, 1)\n\n\tgo func() {\n\t\tdefer close(send)\n", Expect: "R09.11"},
 			{Name: "no-send-timeout", File: "pkg/resource/value.go", Old: "ctx, cancel := context.WithTimeout(context.TODO(), time.Second*5)", New: "ctx, cancel := context.WithCancel(context.TODO())", Expect: "R09.4"},
 			{Name: "listener-ignores-send-ctx", File: "internal/minibus/bus.go", Old: "\tcase <-ctx.Done():\n\t\t// send context cancelled\n\t\treturn false, true\n\n", New: "", Expect: "R09.4"},
 			{Name: "reorder-switch-arms", Silent: true, File: "pkg/resource/backpressure.go",
@@ -60,6 +62,8 @@ func runC09(c *an.Ctx) {
 	c.Min("R09.2", 8)
 	c.Min("R09.3", 4)
 	c.Min("R09.4", 3)
+	r0911(c, "R09.11")
+	c.Min("R09.11", 3)
 }
 
 func r091(c *an.Ctx) { r091as(c, "R09.1") }
@@ -507,6 +511,27 @@ func r094(c *an.Ctx) {
 				if !isDeadline {
 					return
 				}
+				// what is tested is the send context's own error (ctx.Err() of the context handed to Bus.Send): any
+				// other error value says nothing about whether this send ran out of time
+				ofSendCtx := false
+				for _, a := range call.Call.Args {
+					for _, v := range an.ValuesAt(a) {
+						ec, isCall := v.(*ssa.Call)
+						if !isCall || !ec.Call.IsInvoke() || ec.Call.Method.Name() != "Err" {
+							continue
+						}
+						for _, x := range an.ValuesAt(ec.Call.Value) {
+							for _, y := range an.ValuesAt(ctxArg) {
+								if x == y {
+									ofSendCtx = true
+								}
+							}
+						}
+					}
+				}
+				if !ofSendCtx {
+					return
+				}
 				// true edge returns a non-nil error
 				for _, u := range an.Referrers(call) {
 					if iff, isIf := u.(*ssa.If); isIf {
@@ -803,4 +828,39 @@ func r098(c *an.Ctx) {
 		})
 	}
 	c.Count("derived_read_requests", n)
+}
+
+// r0911: with backpressure a writer waits until the subscriber has TAKEN the event. The chain bus -> forwarding
+// goroutine -> subscriber only has that property if the channel a Pull hands out has no buffer: with capacity n
+// the forwarder parks n events (or the seed) and goes back to the bus, so a writer returns while the subscriber has
+// received nothing.
+func r0911(c *an.Ctx, rule string) {
+	for _, t := range [][2]string{{"Value", "Pull"}, {"Collection", "Pull"}, {"Collection", "PullID"}} {
+		fn := mustFunc(c, rule, resPkg, t[0], t[1])
+		if fn == nil {
+			continue
+		}
+		name := "(*pkg/resource." + t[0] + ")." + t[1]
+		n, bad := 0, ""
+		for _, r := range an.Returns(fn) {
+			if r.Block() == fn.Recover || len(r.Results) == 0 {
+				continue
+			}
+			for _, s := range an.Sources(r.Results[0]) {
+				mc, ok := s.(*ssa.MakeChan)
+				if !ok {
+					continue
+				}
+				n++
+				if k, isC := an.ConstInt(mc.Size); !isC || k != 0 {
+					bad = c.Prog.Fset.Position(mc.Pos()).String()
+				}
+			}
+		}
+		if n == 0 {
+			c.Unk(rule, name+"|the channel handed out is unbuffered", fn.Pos(), "the returned channel's make was not found")
+			continue
+		}
+		c.Check(bad == "", rule, name+"|the channel handed out is unbuffered", fn.Pos(), "", "the channel given to the subscriber has a buffer (made at "+bad+"): the forwarding goroutine parks events there and returns to the bus, so with backpressure a writer completes before the subscriber has received anything")
+	}
 }
